@@ -609,6 +609,10 @@ def run_contract(eng, c, clause_filter=None):
                           info={"kind": "post-exc", "exc": exc.cls.__name__,
                                 "note": "no exception may escape under this contract"},
                           assume_after=False)
+        elif c.when_blocked is not None:
+            ns2 = dict(ns, old=old, where=outcome[1])
+            ctx.prove("%s/blocked-only-when" % label, ctx.as_goal(ctx.call_spec(c.when_blocked, ns2, strict=False)),
+                      info={"kind": "blocks", "what": outcome[1]}, assume_after=False)
         else:
             ctx.prove("%s/never-blocks" % label, z3.BoolVal(False),
                       info={"kind": "blocks", "what": outcome[1]}, assume_after=False)
@@ -624,7 +628,7 @@ def run_contract(eng, c, clause_filter=None):
             res.add("%s/exec" % label, "unknown", note="out of subset: %s" % ctx.note)
         if ctx.status == "escaped":
             res.add("%s/exec" % label, "unknown", note="spec/engine raised: %s" % ctx.note)
-        if ctx.outcome is not None and ctx.outcome[0] in ("ret", "raise"):
+        if ctx.outcome is not None and (ctx.outcome[0] in ("ret", "raise") or c.when_blocked is not None):
             nret += 1
         for ob in ctx.obligs:
             witness = None
